@@ -394,6 +394,11 @@ class Interp:
             except _Continue:
                 pass
             except _Break:
+                if spec.on_break == 'exit-invariant':
+                    # leaving early is justified iff the state already satisfies the invariant of the completed loop
+                    for label, f in spec.invariant(self, env, n):
+                        ctx.oblige(f'{tag}.break.{label}', f, kind='inv-break', line=node.lineno)
+                    raise PathDone()
                 if spec.on_break is not None:
                     for label, f in spec.on_break(self, env, k):
                         ctx.oblige(f'{tag}.break.{label}', f, kind='inv-break', line=node.lineno)
